@@ -661,6 +661,14 @@ class Interp:
             return a + b
         if isinstance(a, str) and isinstance(op, ast.Mod):
             raise OutOfReach("% string formatting")
+        if isinstance(a, Builtin) and isinstance(b, Builtin) and isinstance(op, ast.BitOr) and a.bound is None and b.bound is None:
+            # a | b of two members of the same external flag enumeration (e.g. spnego.ContextReq.default | .dce_style): the set of
+            # member names, in canonical order; what the flags mean is the external library's business (A-SPNEGO)
+            pa, _, ma = a.name.rpartition(".")
+            pb, _, mb = b.name.rpartition(".")
+            if pa and pa == pb:
+                members = sorted(set(ma.strip("()").split("|")) | set(mb.strip("()").split("|")))
+                return Builtin(f"{pa}.({'|'.join(members)})")
         raise OutOfReach(f"binary {type(op).__name__} on {type(a).__name__}, {type(b).__name__}")
 
     def bytes_repeat(self, v, n):
